@@ -397,7 +397,19 @@ func t1Slots(p *Prog, o *obls, fn *ssa.Function, spec refcountSpec, found *int) 
 		for _, l := range loads {
 			isRelease := func(in ssa.Instruction) bool {
 				c, ok := in.(*ssa.Call)
-				return ok && calleeName(&c.Call) == spec.release && p.origin(c.Call.Args[0]) == ssa.Value(l)
+				if !ok || calleeName(&c.Call) != spec.release {
+					return false
+				}
+				if p.origin(c.Call.Args[0]) == ssa.Value(l) {
+					return true
+				}
+				// the slot read again for the call (`if r.slots[i] != nil { r.slots[i].Release() }`): the same occupant
+				for _, l2 := range loads {
+					if p.origin(c.Call.Args[0]) == ssa.Value(l2) {
+						return true
+					}
+				}
+				return false
 			}
 			starts := nonNilSuccessors(p, fn, l)
 			if len(starts) == 0 {
